@@ -344,6 +344,90 @@ if n2_runs == 0:
     ck.inconclusive.append('vacuous: N2 never instantiated')
 ck.notes.append(f'N2: {n2_runs} handler paths compared with the log rebuilt by from_wal')
 
+# ------------------------------------------------------------------ N3: what a leader accepts is durable
+# propose() and propose_codebook_replace() on a leader with the real WAL: when the call returns Ok(index) the entry is part
+# of the leader's log - and must therefore be rebuilt by from_wal after a restart ("every log entry it had accepted as leader").
+ck.declare('N3_accepted_as_leader_is_durable', 'propose / propose_codebook_replace on a leader (transfer flag and quorum check arbitrary), pre-log 0..1 entries, real RaftWal and real from_wal',
+           'Ok(index) => the log rebuilt by from_wal equals the in-memory log including the new entry; Err => the in-memory log and the file are unchanged')
+ex2.extra_models['SparseVector::new'] = lambda c: Struct('SparseVector', {}, lazy=c.st.fresh_name('sv'))
+ex2.extra_models['RaftNode::is_transfer_in_progress'] = lambda c: z3.Bool(c.st.fresh_name('transfer'))
+ex2.extra_models['RaftNode::is_write_safe'] = lambda c: z3.Bool(c.st.fresh_name('write_safe'))
+n3_ok = n3_err = 0
+for call in ('propose', 'propose_codebook_replace'):
+    for nlog in (0, 1):
+        st = ex2.new_state()
+        st.env['codec_len'] = 2
+        st.env['crc_nonzero'] = True
+        N = Node(st, nlog)
+        st.assume(z3.ULT(N.term0.v, U64(1 << 62)))
+        st.assume(z3.UGT(N.term0.v, U64(0)))
+        opened = sc2.open(st, 'node wal')
+        if len(opened) != 1 or opened[0][1] is None:
+            ck.inconclusive.append('N3: initial open failed')
+            continue
+        st = opened[0][0]
+        walobj = st.roots['wal'].load(st)
+        st.roots['node'].fields[F('RaftNode', 'wal')] = some(Ptr(Cell(val=Struct('Mutex', {'data': Cell(val=walobj)})), 0),
+                                                             'std::option::Option<std::sync::Arc<parking_lot::lock_api::Mutex<parking_lot::RawMutex, raft_wal::RaftWal>>>')
+        okp = True
+        for i in range(nlog):
+            e = N.persistent(st).load(F('PersistentState', 'log'), None, st).items(st)[i]
+            rs = sc2.run(st, 'RaftNode::persist_log_entry', [st.roots['nodeptr'], ref(e)])
+            g = [r for r in rs if r.status == 'return' and r.retval.variant == 'Ok']
+            if len(g) != 1:
+                okp = False
+                break
+            st = g[0].st
+        if not okp:
+            ck.inconclusive.append('N3: could not write the pre-log')
+            continue
+        N.node = st.roots['node']
+        len0 = len(sc2.file(st).data)
+        arg = Struct('Block', {}, lazy='BLK') if call == 'propose' else Struct('GlobalCodebookSnapshot', {}, lazy='CBS')
+        res = sc2.run(st, 'RaftNode::' + call, [st.roots['nodeptr'], arg])
+        ck.note_path_problem(res, f'N3 {call} log={nlog}')
+        for r in res:
+            wit = lambda m, call=call, nlog=nlog, N=N: {'leader_accepts': call, 'pre_terms': [mval(m, t) for t in N.log0], 'node_term': mval(m, N.term0.v)}
+            if r.status == 'panic':
+                ck.require(ex2, 'N3_accepted_as_leader_is_durable', r.pc, None, z3.BoolVal(False), wit, lambda m, w: 'leader-panic')
+                continue
+            if r.status != 'return':
+                continue
+            f = r.st
+            mem = N.log(f)
+            if r.retval.variant != 'Ok':
+                n3_err += 1
+                ck.require(ex2, 'N3_accepted_as_leader_is_durable', r.pc, None, z3.BoolVal(len(mem) == nlog and len(sc2.file(f).data) == len0), wit, lambda m, w: 'refused-proposal-left-traces')
+                continue
+            n3_ok += 1
+            s3 = sc2.crash(f, len(sc2.file(f).data))
+            for (s4, wp4, e4) in sc2.open(s3, 'N3 reopen'):
+                if wp4 is None:
+                    ck.require(ex2, 'N3_accepted_as_leader_is_durable', s4.pc, None, z3.BoolVal(False), wit, lambda m, w: 'node-reopen')
+                    continue
+                rr = sc2.run(s4, 'RaftRecoveryState::from_wal', [s4.roots['wal']])
+                ck.note_path_problem(rr, 'N3 from_wal')
+                for r5 in rr:
+                    if r5.status != 'return' or r5.retval.variant != 'Ok':
+                        continue
+                    rec = r5.retval.fields[('Ok', 0)].load(P.field('RaftRecoveryState', 'recovered_log'), None, r5.st).items(r5.st)
+                    tab = r5.st.env.get('codec', [])
+                    got = []
+                    for img in rec:
+                        items = img.items(r5.st)
+                        hit = [v for bs, v in tab if len(bs) == len(items) and all(a.v.eq(b.v) for a, b in zip(bs, items))]
+                        got.append(hit[0] if hit else None)
+                    if len(got) != len(mem) or len(mem) != nlog + 1 or any(g is None or not isinstance(g, Struct) for g in got):
+                        concl = z3.BoolVal(False)
+                    else:
+                        concl = z3.And([z3.And(g.load(F('LogEntry', 'term'), 'u64', r5.st).v == mt, g.load(F('LogEntry', 'index'), 'u64', r5.st).v == mi) for g, (mt, mi) in zip(got, mem)])
+                    ck.require(ex2, 'N3_accepted_as_leader_is_durable', r5.pc, None, concl,
+                               lambda m, call=call, nlog=nlog, N=N, got=got, mem=mem: {'leader_accepts': call, 'pre_terms': [mval(m, t) for t in N.log0], 'node_term': mval(m, N.term0.v),
+                                                                                      'memory_log_len': len(mem), 'recovered_log_len': len(got)},
+                               lambda m, w: 'accepted-entry-not-durable:' + w['leader_accepts'])
+if n3_ok == 0 or n3_err == 0:
+    ck.inconclusive.append(f'vacuous: N3 accepted on {n3_ok} paths, refused on {n3_err}')
+
 # ------------------------------------------------------------------ native replay on real files
 for v in ck.violations:
     w = v['witness']
@@ -357,6 +441,10 @@ for v in ck.violations:
             v['replayed'] = rep.get('replay1_ok') is False or rep.get('replay1_matches') is False
         else:
             v['replayed'] = rep.get('replay2_ok') is False or rep.get('new_record_recovered') is False or rep.get('replay2_prefix_matches') is False
+    elif w.get('leader_accepts'):
+        rep = Replay.call({'op': 'raft_leader_accepts', **w})
+        v['native'] = rep
+        v['replayed'] = rep.get('violates')
     elif w.get('node_log'):
         rep = Replay.call({'op': 'raft_log_restart', **w})
         v['native'] = rep
